@@ -123,13 +123,13 @@ def parent(n):
     return c
 
 
-def initial_objects(scenario, init_circ, pnu=3, tmpl_loss=False):
+def initial_objects(scenario, init_circ, pnu=3, tmpl_loss=False, tnu=(3, 2)):
     """init_circ: the spec's initial circ value (tuple of records)"""
     if scenario == "single":
         return {1: lw.Circuit(init_circ[0]["nu"])}
     if scenario == "pair":
         return {1: lw.Circuit(pnu), 2: lw.Circuit(2)}
-    return {1: parent(pnu), 2: template(3, tmpl_loss), 3: template(2, tmpl_loss)}
+    return {1: parent(pnu), 2: template(tnu[0], tmpl_loss), 3: template(tnu[1], tmpl_loss)}
 
 
 # ---------------------------------------------------------------- observation
@@ -369,6 +369,16 @@ def _check_read(c, ev, res, spec_c, order, name, a, ins, expect_ok, flt, P, stat
                     out.append(("input_not_rejected", "simulate([valid, %s]) accepted an input of the wrong length in second position" % (bad,)))
                 except Exception:  # noqa: BLE001
                     pass
+                # ... also a state that is too SHORT, with explicit outputs whose trailing mode is empty
+                if len(ins) >= 2 and ins[-1] == 0:
+                    short = list(ins[:-1])
+                    outs0 = [o for o in outs_sorted if o[-1] == 0 and sum(o) == sum(ins)]
+                    if outs0:
+                        try:
+                            emu.Simulator(c).simulate([state(ins), state(short)], outputs=[state(o) for o in outs0])
+                            out.append(("input_not_rejected", "simulate([valid, %s]) computed amplitudes for an input that is one mode too short" % (short,)))
+                        except Exception:  # noqa: BLE001
+                            pass
         elif name == "sdist":
             L, table = res
             table = table if isinstance(table, dict) else {}
@@ -491,6 +501,19 @@ def _check_read(c, ev, res, spec_c, order, name, a, ins, expect_ok, flt, P, stat
                 if abs(got.get(o, 0.0) - exp.get(o, 0.0) / tot) > 1e-8:
                     out.append(("quick", "quick sampler P(%s) = %.9g, conditioned sampler value %.9g" % (o, got.get(o, 0.0), exp.get(o, 0.0) / tot)))
                     break
+            # the post-selection given as a function: first a different predicate from the same factory, then the real one
+            if a[1]:
+                def factory(rules):
+                    return lambda s_: all(sum(s_[m] for m in modes) in counts for modes, counts in rules)
+                qs = emu.QuickSampler(c, state(ins), photon_counting=a[2], post_select=factory([]))
+                qs.probability_distribution
+                qs.post_select = factory(sorted(a[1]))
+                got2 = {tuple(s.s): p for s, p in qs.probability_distribution.items()}
+                for o in set(exp) | set(got2):
+                    if abs(got2.get(o, 0.0) - exp.get(o, 0.0) / tot) > 1e-8:
+                        out.append(("quick", "quick sampler with the post-selection given as a function (assigned after an earlier read): P(%s) = %.9g, "
+                                             "conditioned sampler value %.9g" % (o, got2.get(o, 0.0), exp.get(o, 0.0) / tot)))
+                        break
     except Exception as e:  # noqa: BLE001
         if expect_ok:
             out.append(("read_raised/%s/%s" % (name, type(e).__name__), "%s%s raised %s: %s" % (name, tuple(a), type(e).__name__, e)))
@@ -720,10 +743,10 @@ def dump_worker(st, ctx):
     circ = st["circ"]
     semv = st.get("sem")
     res = {"prog": prog, "findings": [], "drift": None, "calib": 0.0, "op": st.get("op"), "ctx": ctx,
-           "init": ({"kind": "tmpl", "pnu": ctx.get("pnu", 3), "loss": ctx.get("tmpl_loss", False)} if ctx["scenario"] == "tmpl"
+           "init": ({"kind": "tmpl", "pnu": ctx.get("pnu", 3), "loss": ctx.get("tmpl_loss", False), "tnu": tuple(ctx.get("tnu", (3, 2)))} if ctx["scenario"] == "tmpl"
                     else {"kind": "sizes", "sizes": [ctx.get("pnu", 3), 2]} if ctx["scenario"] == "pair"
                     else {"kind": "sizes", "sizes": [circ[0]["nu"]]})}
-    objs = initial_objects(ctx["scenario"], circ, ctx.get("pnu", 3), ctx.get("tmpl_loss", False))
+    objs = initial_objects(ctx["scenario"], circ, ctx.get("pnu", 3), ctx.get("tmpl_loss", False), tuple(ctx.get("tnu", (3, 2))))
     pval = st.get("pval") or ()
     params = Params(ctx.get("parkinds", ()), ctx.get("parinit", ()))
     exp_sem = None
